@@ -77,6 +77,8 @@ func JS(ops []Op) string {
 			fmt.Fprintf(&b, "if (%s in _.bindings) { _.bindings[%s] = _.bindings[%s]; }\n", js(o.K2), js(o.K), js(o.K2))
 		case "del":
 			fmt.Fprintf(&b, "delete _.bindings[%s];\n", js(o.K))
+		case "mutnested":
+			fmt.Fprintf(&b, "(function(o) { if (o && typeof o === 'object') { if (o.length !== undefined) { if (o.length > 0) { o[0] = 'mut'; } } else { o.mut = 1; } } })(_.bindings[%s]);\n", js(o.K))
 		case "delall":
 			b.WriteString("for (var k__ in _.bindings) { delete _.bindings[k__]; }\n")
 		case "fresh":
@@ -132,6 +134,15 @@ func Native(ops []Op, partial bool) func(context.Context, match.Bindings, core.S
 				}
 			case "del":
 				delete(cur, o.K)
+			case "mutnested":
+				switch vv := cur[o.K].(type) {
+				case []interface{}:
+					if len(vv) > 0 {
+						vv[0] = "mut"
+					}
+				case map[string]interface{}:
+					vv["mut"] = float64(1)
+				}
 			case "delall":
 				cur = match.Bindings{}
 			case "fresh":
@@ -223,8 +234,8 @@ func EncOps(ops []Op) interface{} {
 			a = append(a, T{"set", o.K, enc.V(o.V)})
 		case "setfrom":
 			a = append(a, T{"setfrom", o.K, o.K2})
-		case "del":
-			a = append(a, T{"del", o.K})
+		case "del", "mutnested":
+			a = append(a, T{o.Name, o.K})
 		case "fresh":
 			a = append(a, T{"fresh", enc.Bs(match.Bindings(o.V.(map[string]interface{})))})
 		default:
@@ -286,6 +297,64 @@ func EncMsgs(xs []interface{}) interface{} {
 		a = append(a, enc.V(x))
 	}
 	return a
+}
+
+// DecOps decodes an encoded op-list (["none"] | ["ops", [...]]) as exported by TLC.
+func DecOps(x interface{}) []Op {
+	t, ok := x.([]interface{})
+	if !ok || len(t) < 2 || t[0] != "ops" {
+		return nil
+	}
+	ops := []Op{}
+	list, _ := t[1].([]interface{})
+	for _, y := range list {
+		o := y.([]interface{})
+		op := Op{Name: o[0].(string)}
+		switch op.Name {
+		case "emit":
+			op.V = enc.D(o[1])
+		case "emitb", "del", "mutnested":
+			op.K = o[1].(string)
+		case "set":
+			op.K, op.V = o[1].(string), enc.D(o[2])
+		case "setfrom":
+			op.K, op.K2 = o[1].(string), o[2].(string)
+		case "fresh":
+			op.V = map[string]interface{}(enc.DBs(o[1]))
+		}
+		ops = append(ops, op)
+	}
+	return ops
+}
+
+// DecNode decodes an encoded node shape as exported by TLC.
+func DecNode(x map[string]interface{}) *ANode {
+	n := &ANode{Act: DecOps(x["act"])}
+	n.Native, _ = x["native"].(bool)
+	n.Partial, _ = x["partial"].(bool)
+	switch x["btype"] {
+	case "none":
+		n.NoBr = true
+	default:
+		n.BType = x["btype"].(string)
+	}
+	brs, _ := x["branches"].([]interface{})
+	for _, y := range brs {
+		b := y.(map[string]interface{})
+		ab := ABranch{}
+		if p, is := b["pat"].([]interface{}); is && p[0] != "nopat" {
+			ab.HasPat, ab.Pat = true, enc.D(p)
+		}
+		ab.Guard = DecOps(b["guard"])
+		t := b["target"].([]interface{})
+		if t[0] == "ref" {
+			ab.Target = t[2].(string)
+		} else {
+			ab.Target = t[1].(string)
+		}
+		n.Branches = append(n.Branches, ab)
+	}
+	return n
 }
 
 // PermNames collects every name ending in '!' that the case mentions.
